@@ -412,6 +412,12 @@ def _to_c_expr(
             ctx,
         )
 
+    def _lambda_capture(node: ast.AST) -> str:
+        # an expression without names may initialise a file-scope variable, where a
+        # lambda cannot have a capture default (and has nothing to capture)
+        uses_names = any(isinstance(sub, ast.Name) for sub in ast.walk(node))
+        return "[&]" if uses_names else "[]"
+
     def _literal_length(node: ast.AST) -> Optional[int]:
         if isinstance(node, ast.Constant):
             value = node.value
@@ -635,7 +641,7 @@ def _to_c_expr(
                         else f"__redu_b ? {first} : {expr}"
                     )
                     expr = (
-                        f"([&]() -> {result_type} {{ auto __redu_b = {emit(value)}; "
+                        f"({_lambda_capture(n)}() -> {result_type} {{ auto __redu_b = {emit(value)}; "
                         f"return {chosen}; }}())"
                     )
                 return expr
@@ -663,7 +669,7 @@ def _to_c_expr(
                         steps.append(f"if (!({test})) {{ return false; }}")
                     else:
                         steps.append(f"return {test};")
-                return "([&]() -> bool { " + " ".join(steps) + " }())"
+                return "(" + _lambda_capture(n) + "() -> bool { " + " ".join(steps) + " }())"
             parts = []
             left = emit(n.left)
             for op_token, comparator in zip(op_tokens, n.comparators):
